@@ -87,7 +87,8 @@ def main():
     nproj = 10 if a.tier == "quick" else 60
     K = 4 if a.tier == "quick" else 10
     if a.replay:
-        projects = [json.load(open(a.replay))["input"]]
+        rin = json.load(open(a.replay))["input"]
+        projects = [rin["sequence"][-1]["project"]] if "sequence" in rin else [rin]
     else:
         projects = []
         while len(projects) < nproj:
@@ -214,6 +215,47 @@ Print propfail.
                        "cli_exits": c["exits"],
                        "note": "emission order / import serials differ from the model; all artifacts were "
                                "byte-identical across runs"}, no_input=True)
+    # ---- sequences of generations in ONE process: every artifact must be the bytes a fresh process writes
+    import seqleg
+    import hashlib
+    seqstats = {"sequences": 0, "steps": 0, "byte_differences": 0}
+    if not a.replay or "sequence" in json.load(open(a.replay))["input"]:
+        if a.replay:
+            rp = json.load(open(a.replay))
+            seqs = [(rp.get("engine", "gin"), [(x["edit"], x["project"]) for x in rp["input"]["sequence"]])]
+        else:
+            bases = [p for p in projects if p["controllers"][0]["methods"]][:(2 if a.tier == "quick" else 8)]
+            seqs = [(ENGINES[i % len(ENGINES)], seqleg.edits(rng, b)) for i, b in enumerate(bases)]
+        import concurrent.futures
+        with concurrent.futures.ThreadPoolExecutor(max_workers=4) as ex:
+            ran = list(ex.map(lambda x: seqleg.run_sequence(PROP, "q%d" % x[0], x[1][1], engine=x[1][0]), enumerate(seqs)))
+        hrows, hmeta = [], []
+        for (e, seq), steps in zip(seqs, ran):
+            seqstats["sequences"] += 1
+            seqstats["steps"] += len(steps)
+            for si, st in enumerate(steps):
+                for art in ("spec", "routes"):
+                    hs = [hashlib.md5(st[w][art]).hexdigest() if st[w][art] is not None else "absent" for w in ("fresh", "inproc")]
+                    hrows.append("(%d, %s)" % (len(hmeta), coq_list([coq_bytes(x) for x in hs])))
+                    hmeta.append((e, steps, si, art, hs))
+        sbody = ("From Gleece Require Import Base.Bytes Model.Determinism.\nFrom Coq Require Import String.\n"
+                 "Definition cases : list (nat * list str) := [\n" + ";\n".join(hrows) + "].\n"
+                 "Definition seqfail := Eval vm_compute in map fst (filter (fun c => negb (prop_C13 (snd c))) cases).\nPrint seqfail.\n")
+        seqfail = parse_nat_list(run_coq_file(PROP, "sequences", sbody), "seqfail") if hrows else []
+        seqstats["byte_differences"] = len(seqfail)
+        for i in seqfail[:2]:
+            e, steps, si, art, hs = hmeta[i]
+            import difflib
+            fa = (steps[si]["fresh"][art] or b"").decode("utf-8", "replace").splitlines()
+            ia = (steps[si]["inproc"][art] or b"").decode("utf-8", "replace").splitlines()
+            res.violation({"kind": "property-fails-on-implementation", "leg": "sequence of generations in one process",
+                           "engine": e, "input": {"sequence": seqleg.describe_sequence(steps, si)}, "failing_step": si,
+                           "edit": steps[si]["label"], "artifact": art, "hashes_fresh_vs_same_process": hs,
+                           "diff": list(difflib.unified_diff(fa, ia, "fresh-process", "same-process", lineterm="", n=0))[:30],
+                           "claim": "the artifact is a function of the sources and the configuration on disk, regardless of "
+                                    "process: a generation that follows others in one process writes the bytes a fresh "
+                                    "process writes"})
+    res.coverage["generation_sequences"] = seqstats
     multi = sum(1 for p in projects if any(len(set(m["file"] for m in c["methods"])) > 1 for c in p["controllers"]))
     res.coverage.update({
         "evaluations": len(jobs), "distinct_nontrivial": multi,
